@@ -126,7 +126,7 @@ Ltac jinv H :=
   lazymatch type of H with
   | jbind _ _ _ = Ok _ =>
       let x := fresh "x" in let s := fresh "st" in let H1 := fresh "H" in let H2 := fresh "H" in
-      apply bind_inv in H; destruct H as (x & s & H1 & H2); jinv H1; jinv H2
+      apply bind_inv in H; destruct H as (x & s & H1 & H2); jinv H1; cbv beta zeta in H2; jinv H2
   | jret _ _ = Ok _ => apply ret_inv in H; destruct H as [? ?]; subst
   | jget _ = Ok _ => apply get_inv in H; destruct H as [? ?]; subst
   | jmod _ _ = Ok _ => apply mod_inv in H; subst
@@ -140,6 +140,26 @@ Ltac jinv H :=
   end.
 
 Ltac proj := cbn [j_out j_indent j_buf j_scope j_n j_auto j_cur j_called j_infile upd_out set_indent set_buf set_scope set_auto jset_cur set_called set_infile] in *.
+
+Lemma ext_upd a x c cs : ext a x cs -> ext a (upd_out (fun o => rev_append c o) x) (cs ++ c).
+Proof. intro H. eapply ext_step; [exact H|reflexivity]. Qed.
+Lemma ext_w1 a x cs (f : jstate -> jstate) : (forall y, j_out (f y) = j_out y) -> ext a x cs -> ext a (f x) cs.
+Proof. intros Hf H. eapply ext_same; [exact H|apply Hf]. Qed.
+Ltac ext_build :=
+  lazymatch goal with
+  | |- ext ?a ?a _ => apply ext_refl; reflexivity
+  | |- ext ?a (upd_out _ ?x) _ => eapply ext_upd; ext_build
+  | |- ext ?a (set_indent ?n ?x) _ => apply (ext_w1 a x _ (set_indent n)); [reflexivity|ext_build]
+  | |- ext ?a (set_buf ?n ?x) _ => apply (ext_w1 a x _ (set_buf n)); [reflexivity|ext_build]
+  | |- ext ?a (set_scope ?n ?k ?x) _ => apply (ext_w1 a x _ (set_scope n k)); [reflexivity|ext_build]
+  | |- ext ?a (set_auto ?n ?x) _ => apply (ext_w1 a x _ (set_auto n)); [reflexivity|ext_build]
+  | |- ext ?a (jset_cur ?n ?x) _ => apply (ext_w1 a x _ (jset_cur n)); [reflexivity|ext_build]
+  | |- ext ?a (set_called ?n ?x) _ => apply (ext_w1 a x _ (set_called n)); [reflexivity|ext_build]
+  | |- ext ?a (set_infile ?n ?x) _ => apply (ext_w1 a x _ (set_infile n)); [reflexivity|ext_build]
+  | |- ext ?a ?b _ => match goal with E : ext _ b _ |- _ => eapply ext_trans; [ | exact E]; ext_build end
+  end.
+Ltac norm_app := rewrite <- ?app_assoc; cbn [app].
+
 
 Section Expr.
 Variable o : jopts.
@@ -162,25 +182,6 @@ Proof.
   intros L R cl s. eapply emits_toks1; [|apply R]. cbn [lex_chunk]. unfold text_toks in L.
   destruct (lex_text 0 LNormal t) as [[ts' m']|]; [|discriminate]. destruct m'; try discriminate. inversion L; subst. reflexivity.
 Qed.
-
-Lemma ext_upd a x c cs : ext a x cs -> ext a (upd_out (fun o => rev_append c o) x) (cs ++ c).
-Proof. intro H. eapply ext_step; [exact H|reflexivity]. Qed.
-Lemma ext_w1 a x cs (f : jstate -> jstate) : (forall y, j_out (f y) = j_out y) -> ext a x cs -> ext a (f x) cs.
-Proof. intros Hf H. eapply ext_same; [exact H|apply Hf]. Qed.
-Ltac ext_build :=
-  lazymatch goal with
-  | |- ext ?a ?a _ => apply ext_refl; reflexivity
-  | |- ext ?a (upd_out _ ?x) _ => eapply ext_upd; ext_build
-  | |- ext ?a (set_indent ?n ?x) _ => apply (ext_w1 a x _ (set_indent n)); [reflexivity|ext_build]
-  | |- ext ?a (set_buf ?n ?x) _ => apply (ext_w1 a x _ (set_buf n)); [reflexivity|ext_build]
-  | |- ext ?a (set_scope ?n ?k ?x) _ => apply (ext_w1 a x _ (set_scope n k)); [reflexivity|ext_build]
-  | |- ext ?a (set_auto ?n ?x) _ => apply (ext_w1 a x _ (set_auto n)); [reflexivity|ext_build]
-  | |- ext ?a (jset_cur ?n ?x) _ => apply (ext_w1 a x _ (jset_cur n)); [reflexivity|ext_build]
-  | |- ext ?a (set_called ?n ?x) _ => apply (ext_w1 a x _ (set_called n)); [reflexivity|ext_build]
-  | |- ext ?a (set_infile ?n ?x) _ => apply (ext_w1 a x _ (set_infile n)); [reflexivity|ext_build]
-  | |- ext ?a ?b _ => match goal with E : ext _ b _ |- _ => eapply ext_trans; [ | exact E]; ext_build end
-  end.
-Ltac norm_app := rewrite <- ?app_assoc; cbn [app].
 
 Section Body.
 Variable w : node -> J unit.
